@@ -23,6 +23,9 @@ EXPLANATION = (
   " (FIN-ruby) the guard under which an inherited font size is halved equals, for every (element kind, parent kind) pair the content model allows, `rtc, or rt outside an rtc`;"
   " (STATE-alias / STATE-global) no function of the anchored modules mutates a module- or class-level container, rebinds module / class state or mutates a mutable default argument, so a result never depends on earlier calls;"
   " (MEMO-key) caches in isd.py are not keyed by dataclass values (two equal animation steps of different elements would share an entry);"
+  ' (CMP-activity) an element or animation step is active on the half-open interval [begin, end): begin inclusive, end exclusive, None unbounded;'
+  " (TAB-applies) every style property's processor lists the element kinds it applies to as in the TTML2 / IMSC table;"
+  ' (UNATTACHED) style computation never reads the source document through an element that was created for the ISD;'
 )
 RULE_TEXT = "per ordering pair, guard, property x {inherited, initial, applies-to}, _compute_length call site, unit"
 UNDECIDED = ["numeric values (em-of-%-of-c chains, position edge arithmetic, ruby half size)", "tts:disparity applicability (not established from the specification)"]
@@ -310,19 +313,19 @@ def check_ruby_font_size(ctx):
   f = ix.func("ttconv.isd:StyleProcessors.FontSize.inherit")
   ctx.unit(f.module)
   pname, ename = f.params[1], f.params[2]
-  halving = []
-  for n in own_nodes(f.node):
-    if isinstance(n, ast.If):
-      for c in ast.walk(ast.Module(body=n.body, type_ignores=[])):
-        if isinstance(c, ast.BinOp) and ((isinstance(c.op, ast.Div) and isinstance(c.right, ast.Constant) and c.right.value == 2) or
-                                         (isinstance(c.op, ast.Mult) and any(isinstance(x, ast.Constant) and x.value == 0.5 for x in (c.left, c.right)))):
-          halving.append(n)
-          break
+  def halves(stmts):
+    return any(isinstance(c, ast.BinOp) and ((isinstance(c.op, ast.Div) and isinstance(c.right, ast.Constant) and c.right.value == 2) or
+                                             (isinstance(c.op, ast.Mult) and any(isinstance(x, ast.Constant) and x.value == 0.5 for x in (c.left, c.right))))
+               for st in stmts for c in ast.walk(st))
+  # the innermost test that separates the halving branch from the other one (either branch may be the halving one)
+  halving = [(n, halves(n.body)) for n in own_nodes(f.node) if isinstance(n, ast.If) and halves(n.body) != halves(n.orelse)]
+  halving = [(n, b) for n, b in halving if not any(m is not n and any(x is m for x in ast.walk(n)) for m, _ in halving)]
   if len(halving) != 1:
     raise AnalysisError(f"{f.qualname}: expected exactly one branch that halves the parent's font size, found {len(halving)}")
-  g = halving[0]
-  other = [c for st in g.orelse for c in ast.walk(st) if isinstance(c, ast.BinOp) and isinstance(c.op, (ast.Div, ast.Mult))]
-  ctx.check(not other, "FIN-ruby", f"{f.qualname}|elements other than ruby text inherit the font size unchanged", ctx.where(f.module, g), "else branch passes the parent value on",
+  g, in_body = halving[0]
+  gtest = g.test if in_body else ast.fix_missing_locations(ast.copy_location(ast.UnaryOp(op=ast.Not(), operand=g.test), g.test))
+  other = [c for st in (g.orelse if in_body else g.body) for c in ast.walk(st) if isinstance(c, ast.BinOp) and isinstance(c.op, (ast.Div, ast.Mult))]
+  ctx.check(not other, "FIN-ruby", f"{f.qualname}|elements other than ruby text inherit the font size unchanged", ctx.where(f.module, g), "the other branch passes the parent value on",
             "the non-ruby branch scales the inherited font size")
   base = ix.cls("ttconv.model:ContentElement")
   concrete = [c for c in ix.all_subclasses(base) if c.module.name == "ttconv.model" and c.name in cm.ALLOWED_CHILDREN]
@@ -340,7 +343,7 @@ def check_ruby_font_size(ctx):
       return p is None or p.name != "Rtc"
     return False
   names = {ename: concrete, pname: concrete + [region]}
-  trav.check_type_guard(ctx, f, g.test, names, oracle, "FIN-ruby", f"{f.qualname}|ruby text is half the size of its base, once", ctx.where(f.module, g), "ruby font size default")
+  trav.check_type_guard(ctx, f, gtest, names, oracle, "FIN-ruby", f"{f.qualname}|ruby text is half the size of its base, once", ctx.where(f.module, g), "ruby font size default")
 
 
 def check_unattached(ctx):
